@@ -80,6 +80,7 @@ Module Site.
   Definition sfl_neg : N := 12.       (* delta_list.rs:142 NegDecimal::try_from(calculated).unwrap *)
   Definition af_ratio_pos : N := 13.  (* delta_list.rs:155 PosDecimal::try_from(ratio).unwrap *)
   Definition sfla_total : N := 14.    (* tx.rs:351 SflaTxSpecifics::total_amount *)
+  Definition split_balance : N := 15. (* delta_list.rs Split arm: GEZ::try_from(balance * post / pre).unwrap *)
   Definition set_latest_acb : N := 20.   (* portfolio_status.rs:92 *)
   Definition set_latest_all : N := 21.   (* portfolio_status.rs:100 *)
   Definition init_balance : N := 22.     (* portfolio_status.rs:40 *)
